@@ -201,6 +201,7 @@ func (s *Solver) readLine() (string, error) {
 func (s *Solver) Check(conj []*Term) string {
 	var sb strings.Builder
 	sb.WriteString("(check-sat-assuming (")
+	nlit := 0
 	for _, c := range conj {
 		if c.op == OpConst {
 			if c.val == 0 {
@@ -210,8 +211,13 @@ func (s *Solver) Check(conj []*Term) string {
 		}
 		sb.WriteString(s.lit(c))
 		sb.WriteByte(' ')
+		nlit++
 	}
 	sb.WriteString("))")
+	if nlit == 0 {
+		sb.Reset()
+		sb.WriteString("(check-sat)")
+	}
 	t0 := time.Now()
 	s.send(sb.String())
 	s.in.Flush()
